@@ -46,6 +46,18 @@ def gen_exact(draw, tier="quick"):
     lo = 1.5 if case["cfg"].get("norm") in ("LogNormal", "BoxCox") else 0.0
     case["cond_val"] = [lo + 0.37 * i if not math.isfinite(v) else float(v) for i, v in enumerate(vals)]
     case["chunk"] = draw(st.sampled_from([None, None, 2]))
+    # variogram fitted inside the kriging object (anisotropic start model -> directional fit)
+    spec, cfg = case["spec"], case["cfg"]
+    fdim = kc.field_dim(spec)
+    case["fit"] = (
+        draw(st.sampled_from([False, False, True]))
+        and cfg["variant"] in ("simple", "ordinary")
+        and cfg["geo"] == "euclid"
+        and len(case["cond_val"]) >= 6
+        and cfg.get("norm", "None") == "None"
+    )
+    if case["fit"] and fdim > 1 and all(a == 1.0 for a in spec["anis"]):
+        spec["anis"] = [draw(st.sampled_from([0.4, 2.5])) for _ in spec["anis"]]
     return case
 
 
@@ -57,9 +69,23 @@ def check_exact(case, rec):
     rec.label(cfg["variant"], cfg["geo"], "exact_flag" if cfg["exact"] else "no_nugget", "norm_" + cfg.get("norm", "None"))
     cond_pos = np.array(case["cond_pos"], dtype=float).reshape(fdim, -1)
     vals = np.array(case["cond_val"], dtype=float)
+    k = None
     with quiet():
         model = lib(build_model, spec, _tags=tags)
-        ref = kc.oracle(case, cond_pos, model)
+        if case.get("fit"):
+            try:
+                k = kc.build_krige(case, model=model)
+                k.set_condition(cond_pos.copy(), vals.copy(), fit_variogram=True)
+            except (ValueError, RuntimeError):
+                rec.exclude("variogram_fit_failed")
+                return
+            rec.label("fit_variogram")
+            if k.model.nugget > 0 and not cfg["exact"]:
+                rec.exclude("fitted_nugget_without_exact")
+                return
+            case = dict(case, spec=kc.spec_from_model(spec, k.model))
+            spec = case["spec"]
+        ref = kc.oracle(case, cond_pos, model if k is None else k.model)
     cnd = ref["cond"]
     if not np.isfinite(cnd) or cnd > 1e9:
         rec.exclude("cond>1e9")
@@ -68,7 +94,8 @@ def check_exact(case, rec):
         rec.exclude("data_outside_normalizer_range")
         return
     with quiet():
-        k = lib(kc.build_krige, case, model=model, _tags=tags)
+        if k is None:
+            k = lib(kc.build_krige, case, model=model, _tags=tags)
         kw = dict(kc.target_kwargs(cfg, cond_pos))
         if case["chunk"]:
             kw["chunk_size"] = case["chunk"]
